@@ -1,5 +1,6 @@
 import Pose.Wire
 import Pose.Model.Stop
+import Pose.Model.StopX
 /-! Driver ops for C20 (stopping controllers).
 
 State code on the wire: `(steps * 65536 + patience_count) * 2 + (1 if continual else 0)`.
@@ -80,6 +81,60 @@ def traceGo (kind : String) (f : St → Obs → St) (s : St) : List String → E
       let s' := f s (obsOfCode (← nat t))
       return stCode s' :: (← traceGo kind f s' r)
 
+/-! ### extended model (IEEE specials, shapes) -/
+
+def xf (t : String) : Except String (XF BigF) :=
+  match t with
+  | "nan" => .ok XF.nan
+  | "inf" => .ok XF.pinf
+  | "-inf" => .ok XF.ninf
+  | "-0" => .ok XF.nzero
+  | _ => do return XF.num (← num t)
+
+/-- `S rank d1 … dr n v1 … vn` step events and `R` resets -/
+def parseEventsX : Nat → List String → Except String (List (EvX BigF))
+  | 0, _ => .error "fuel"
+  | _, [] => .ok []
+  | fuel+1, "R" :: rest => do
+      let es ← parseEventsX fuel rest
+      return EvX.reset :: es
+  | fuel+1, "S" :: r :: rest => do
+      let rank ← nat r
+      let (ds, rest1) ← take rank rest
+      let shape ← nats ds
+      match rest1 with
+      | n :: rest2 =>
+        let cnt ← nat n
+        let (xs, rest3) ← take cnt rest2
+        let v ← xs.mapM xf
+        let es ← parseEventsX fuel rest3
+        return EvX.step ⟨shape, v⟩ :: es
+      | [] => .error "arity"
+  | _, t :: _ => .error s!"bad-event:{t}"
+
+/-- per event `code nodec below`; `2 2` for a reset; `9 9 9` and stop when the step raises -/
+def rtbTraceCodesX (c : Cfg) (d tol : XF BigF) : RtbStX BigF → List (EvX BigF) → List Nat
+  | _, [] => []
+  | s, .reset :: es => let s' := rtbResetX s; stCode s'.st :: 2 :: 2 :: rtbTraceCodesX c d tol s' es
+  | s, .step loss :: es =>
+    match rtbObsX d tol s.last loss, rtbStepX c d tol s loss with
+    | some o, some s' => stCode s'.st :: bit o.nodec :: bit o.below :: rtbTraceCodesX c d tol s' es
+    | _, _ => [9, 9, 9]
+
+def sopTraceCodesX (c : Cfg) (d : XF BigF) : St → List String → Except String (List Nat)
+  | _, [] => .ok []
+  | s, a :: b :: r :: rest => do
+      let la ← xf a
+      let lo ← xf b
+      let rc ← int r
+      let o := sopObsX d la lo (if rc < 0 then none else some rc.toNat)
+      let s' := sopStep c s o
+      return stCode s' :: bit o.nodec :: bit o.rej :: (← sopTraceCodesX c d s' rest)
+  | _, _ => .error "arity"
+
+def optNum (t : String) : Except String (Option BigF) := if t == "-" then .ok none else do return some (← num t)
+def optInt (t : String) : Except String (Option Int) := if t == "-" then .ok none else do return some (← int t)
+
 end C20
 open C20
 
@@ -148,6 +203,60 @@ def opsC20 : List (String × Handler) := [
         let tol ← num tol
         let evs ← parseEvents (rest.length + 1) rest
         return fmtNats (rtbNumTrace c d tol RtbSt.init evs)
+      | _ => throw "arity"),
+  -- c20.rtbx maxSteps patience d tol (S rank d1..dr n v1..vn | R)*   values: m:e | nan | inf | -inf | -0
+  ("c20.rtbx", fun ts => do
+      match ts with
+      | ms :: pt :: d :: tol :: rest =>
+        let c : Cfg := ⟨← int ms, ← int pt⟩
+        let evs ← parseEventsX (rest.length + 1) rest
+        return fmtNats (rtbTraceCodesX c (← xf d) (← xf tol) RtbStX.init evs)
+      | _ => throw "arity"),
+  -- c20.sopx maxSteps patience d (last loss rejectCount|-1)*      values as above
+  ("c20.sopx", fun ts => do
+      match ts with
+      | ms :: pt :: d :: rest =>
+        let c : Cfg := ⟨← int ms, ← int pt⟩
+        return fmtNats (← sopTraceCodesX c (← xf d) St.init rest)
+      | _ => throw "arity"),
+  -- c20.defaults rtb steps patience|- decreasing|- tol|-   /  icp|mpc (- | steps patience|- decreasing|- tol|-)
+  --   -> maxSteps patience decreasing tol      (what the constructors install; MPC after its `max_steps -= 1`)
+  ("c20.defaults", fun ts => do
+      let mk (rest : List String) : Except String (Option (RtbArgs BigF)) :=
+        match rest with
+        | ["-"] => .ok none
+        | [st, pt, d, tol] => do return some ⟨← int st, ← optInt pt, ← optNum d, ← optNum tol⟩
+        | _ => .error "arity"
+      match ts with
+      | kind :: rest =>
+        let a ← mk rest
+        let r ← match kind, a with
+          | "rtb", some a => pure (rtbOfArgs a)
+          | "icp", a => pure (icpStepper a)
+          | "mpc", a => pure (mpcStepper a)
+          | _, _ => throw "bad-kind"
+        return s!"{r.1.maxSteps} {r.1.patience} {BigF.toWire r.2.1} {BigF.toWire r.2.2}"
+      | _ => throw "arity"),
+  -- c20.fwd maxSteps patience k d tol stateCode (n x1..xn)*
+  --   ICP.forward (k = 0) / MPC.forward after k MPC.__init__ on the NUMERIC losses the loop body produced
+  --   -> iterations calls finalStateCode      (err short: the model's loop wants more losses than supplied)
+  ("c20.fwd", fun ts => do
+      match ts with
+      | ms :: pt :: kk :: d :: tol :: s0 :: rest =>
+        let c : Cfg := mpcInitN (← nat kk) ⟨← int ms, ← int pt⟩
+        let d ← num d
+        let tol ← num tol
+        let s0 := stOfCode (← nat s0)
+        let rec batches : Nat → List String → Except String (List (List BigF))
+          | 0, _ => .error "fuel"
+          | _, [] => .ok []
+          | f+1, n :: r => do
+              let (xs, r') ← take (← nat n) r
+              return (← nums xs) :: (← batches f r')
+        let ls ← batches (rest.length + 1) rest
+        let r := forwardNum c d tol ⟨s0, none⟩ (fun i => ls.getD i [])
+        if r.1 > ls.length then throw "short"
+        return fmtNats [r.1, r.2.1, stCode r.2.2.st]
       | _ => throw "arity"),
   -- c20.sop.num maxSteps patience d (last loss rejectCount|-1)*  -> per step: stateCode nodec rej
   ("c20.sop.num", fun ts => do
